@@ -73,15 +73,39 @@ pub fn drive(mut f: impl FnMut(&[&str]) -> String) {
     } else {
         Box::new(std::io::BufReader::new(std::io::stdin()))
     };
+    // per-case watchdog: a case that runs longer than VH_CASE_TIMEOUT_MS (default 20 s) is a hang;
+    // the process reports which line it was on stderr (`HANG line=<n>`, 0-based among non-empty
+    // lines) and exits with status 3, so that the check can name the input
+    use std::sync::atomic::{AtomicU64, Ordering};
+    static CUR: AtomicU64 = AtomicU64::new(u64::MAX);
+    static SINCE: AtomicU64 = AtomicU64::new(0);
+    let limit: u64 = std::env::var("VH_CASE_TIMEOUT_MS").ok().and_then(|s| s.parse().ok()).unwrap_or(20000);
+    let t0 = std::time::Instant::now();
+    std::thread::spawn(move || loop {
+        std::thread::sleep(std::time::Duration::from_millis(200));
+        let cur = CUR.load(Ordering::SeqCst);
+        if cur != u64::MAX {
+            let now = t0.elapsed().as_millis() as u64;
+            if now.saturating_sub(SINCE.load(Ordering::SeqCst)) > limit && CUR.load(Ordering::SeqCst) == cur {
+                eprintln!("HANG line={}", cur);
+                std::process::exit(3);
+            }
+        }
+    });
     let stdout = std::io::stdout();
     let mut out = std::io::BufWriter::new(stdout.lock());
+    let mut idx: u64 = 0;
     for line in reader.lines() {
         let line = line.expect("read");
         if line.is_empty() {
             continue;
         }
         let fields: Vec<&str> = line.split(' ').collect();
+        SINCE.store(t0.elapsed().as_millis() as u64, Ordering::SeqCst);
+        CUR.store(idx, Ordering::SeqCst);
         let r = f(&fields);
+        CUR.store(u64::MAX, Ordering::SeqCst);
+        idx += 1;
         writeln!(out, "{}", r).unwrap();
     }
     out.flush().unwrap();
